@@ -182,36 +182,31 @@ def oracle(case, out):
     return None
 
 
+def oracle_sig(case, out):
+    why = oracle(case, out)
+    return ("oracle:" + case.split()[0], why) if why else None
+
+
+def mutate(rng, case):
+    """a neighbouring case: flip one byte of the last hex argument or change the limit"""
+    a = case.split()
+    if a[-1] != "-" and rng.random() < 0.7:
+        b = bytearray(unhx(a[-1])) if len(a[-1]) % 2 == 0 and not a[-1].isdigit() else None
+        if b:
+            b[rng.randrange(len(b))] = rng.randrange(256)
+            a[-1] = hx(b)
+            return " ".join(a)
+    if a[0] in ("tok.prefix", "tok.suffix"):
+        a[2] = str(rng.choice([0, 1, 2, 3, NPOS]))
+    return " ".join(a)
+
+
 def run(res, tier):
-    rng = random.Random(common.seed() * 1000003 + 50)
     res.rule = ("random character sets (named RFC sets, ranges, sparse/dense random) x inputs built from runs of members "
                 "and non-members x limits {0,1,2,3,len-1,len,len+1,npos,..}; a case is non-trivial when the "
                 "operation consumed or produced at least one byte / changed at least one member")
-    ok, err = std.proof_stage(res, PID, gens=["charsets"])
-    exe = impl()
-    runner = coq.build_runner("tok")
-    n = 30000 if tier == "quick" else 400000
-    cases = gen_cases(rng, n)
-    impl_out, model_out, dis = std.corr_stage(
-        res, cases, exe, runner, kind_fn=lambda c, o: c.split()[0] + ":" + o.split()[0][:4],
-        nontrivial_fn=lambda c, o: not (o.startswith("fail") or o.startswith("0 ")))
-    for c in cases[:4]:
-        res.sample(c[:200])
-    found = 0
-    for c, o in zip(cases, impl_out):
-        why = oracle(c, o)
-        if why:
-            found += 1
-            res.fail("oracle:" + c.split()[0], "%s on input `%s`: implementation answered `%s`: %s" % (PID, c[:300], o[:200], why),
-                     {"case": c, "impl": o, "oracle": why})
-    if dis and not found:
-        k, c, a, b = dis[0]
-        res.fail("corr:" + c.split()[0],
-                 "model and implementation disagree on %d cases (first: `%s` impl=`%s` model=`%s`) but the property oracle holds on every implementation answer" % (len(dis), c[:200], a[:100], b[:100]),
-                 {"no_failing_input_found": True, "broken": "correspondence TokModel/CharSetModel vs src/parser/Tokenizer.cc, src/base/CharacterSet.cc",
-                  "case": c, "impl": a, "model": b})
-    if not ok and not found:
-        std.no_input_violation(res, "Properties_C50.v", err)
-    elif not ok:
-        res.notes.append("proof stage failed: " + err)
-    res.extra["disagreements"] = len(dis)
+    std.run_standard(res, PID, tier, area="tok", build_impl=impl, gen_cases=gen_cases, oracle=oracle_sig,
+                     corr_name="TokModel/CharSetModel vs src/parser/Tokenizer.cc, src/base/CharacterSet.cc",
+                     gens=["charsets"], n_quick=30000, n_thorough=400000, seed_salt=50, mutate=mutate,
+                     kind_fn=lambda c, o: c.split()[0] + ":" + (o.split()[0] if o.split()[0] in ("ok", "fail", "0", "1") else "val"),
+                     nontrivial_fn=lambda c, o: not (o.startswith("fail") or o.startswith("0 ")))
